@@ -319,6 +319,6 @@ pub mod verif_hooks {
     /// Returns the operation tag and the two half plane normal vectors computed by
     /// `PlaneSector::new(angle_start, angle_sweep)`.
     pub fn plane_sector(angle_start: Angle, angle_sweep: Angle) -> (u8, [i32; 2], [i32; 2]) {
-        crate::primitives::common::PlaneSector::new(angle_start, angle_sweep).verif_parts()
+        crate::primitives::verif_plane_sector(angle_start, angle_sweep)
     }
 }
